@@ -108,7 +108,7 @@ Inserted(c) == MemNames(c.new) \ MemNames(c.old)
 Mem(ms, n) == ms[CHOOSE i \in 1..Len(ms) : ms[i].n = n]
 LastOldOffset(c) == c.old[Len(c.old)].off
 (* the two binaries of the comparison *)
-Env(paths, sonames) == [paths |-> paths, sonames |-> sonames]
+Env(paths, sonames) == [paths |-> paths, bases |-> paths, sonames |-> sonames]
 
 (* ======================================= transcription ============================================== *)
 (* suppression_base::priv::matches_binary_name / matches_soname for the one regexp the model carries:        *)
@@ -259,7 +259,9 @@ HidesExactly(s, i) == IF Covers(s, i) THEN {i} ELSE {}
 MatchesNothing(s, ifaces, types, env) ==
   CASE s.kind \in {"function", "variable"} -> \A i \in ifaces : ~IfaceSatisfies(s, i, env)
     [] s.kind = "type" -> \A c \in types : ~MayHide(s, c, env)
-    [] OTHER -> ~BinariesOk(s, env) \/ (s.file_name_regexp.k = "none" /\ s.soname_regexp.k = "none")     \* [suppress_file]
+    [] OTHER -> \* [suppress_file]: its properties are alternatives (file name -- last component or path --, SONAME)
+         /\ \A i \in 1..Len(env.paths) : ~ReMatches(s.file_name_regexp, env.paths[i]) /\ ~ReMatches(s.file_name_regexp, env.bases[i])
+         /\ \A i \in 1..Len(env.sonames) : ~ReMatches(s.soname_regexp, env.sonames[i])
 
 (* C26: a type is private iff it is not *defined* in one of the public headers (given as paths);            *)
 (* a type only declared there has its definition elsewhere (or nowhere: opaque)                               *)
@@ -380,7 +382,8 @@ HidesExactlyOne == Done({"ifaces"}) => \A i \in ifs : NamesExactly(sec, i, ifs, 
 (* C26 on the transcription of the artificial suppression: directory walk (hidden) and --header-file (may) *)
 PrivateRuleDir == Done({"private"}) => (obs.hidden <=> PrivateTypeRule(chg, PublicHeaders))
 PrivateRuleFile == Done({"private"}) => (obs.may <=> PrivateTypeRule(chg, PublicHeaders))
-(* vacuity guards: each is expected to be VIOLATED (SupprVacuity*.cfg): the transcription does hide, refuse, and hide exactly one *)
+(* vacuity guards: each is expected to be VIOLATED (SupprVacuityRanges.cfg, SupprVacuityIfaces.cfg): the transcription does hide   *)
+(* a change because of a range, and does hide exactly the one named interface                                                       *)
 NeverHides == ~(Done({"ranges", "names"}) /\ obs.hidden)
 NeverHidesWithRange == ~(Done({"ranges"}) /\ obs.hidden /\ Inserted(chg) # {})
 NeverExactlyOne == ~(Done({"ifaces"}) /\ \E i \in ifs : NamesExactly(sec, i, ifs, Env0) /\ obs.applied = {i})
